@@ -22,7 +22,8 @@ Types == {"FileBegin", "Credit", "CreditBatch", "FileEnd", "FileDone", "FileResu
 
 \* numeric boundary classes (TLC integers are 32-bit: the values live in the Go driver)
 Num == {"0", "1", "max-1", "max"}
-PathLens == {1, 2, 255, 1024}
+PathLens == {1, 2, 255, 1024, 1025, 1026}     \* 1025: one byte over the limit; 1026: over in bytes, under in characters (multi-byte)
+PathLimit == 1024
 IdLens == {0, 1, 16, 65535}
 ErrLens == {0, 1, 200, 65535}
 BitmapLens == {0, 1, 2, 8192, 65536}
@@ -126,7 +127,9 @@ Init ==
 
 Next == phase = "new" /\ phase' = "done" /\ UNCHANGED <<typ, vlen, nums, seq, mut>>
 
-Row == IF Mode = "values" THEN [type |-> typ, vlen |-> vlen, nums |-> nums, len |-> EncodedLen(typ, vlen)]
+\* values over a field's limit must be refused by the encoder (nothing written), never emitted as a record the decoder rejects
+OverLimit == typ = "FileBegin" /\ vlen > PathLimit
+Row == IF Mode = "values" THEN [type |-> typ, vlen |-> vlen, nums |-> nums, len |-> EncodedLen(typ, vlen), over |-> OverLimit]
        ELSE IF Mode = "sequences" THEN [seq |-> seq]
        ELSE [type |-> typ, stage |-> mut[1], mutation |-> mut[2], mustReject |-> MustReject(mut[2])]
 Emit == PrintT("E " \o ToJson([act |-> [a |-> Mode], d |-> 1, x |-> Row]))
